@@ -35,6 +35,7 @@ HOSTILE = ['a:b', 'a\\b', 'é', 'a b', 'x[0]', 'x[1]', 'q.r', 'True', '0',
 TEXTS = ['', 'a', 'm', 'obj', 'é', 'a:b', 'a\\b', ' ', 'x[0]', '日本', '0',
          'False', 'None', '\x00', 'a\nb']
 EPOCH = datetime.datetime(1970, 1, 1, tzinfo=datetime.timezone.utc)
+MAX_EXACT_INT = 2 ** 53
 
 
 def hostile_text(s):
@@ -121,6 +122,8 @@ def space_spec(draw, max_depth=3, max_root=3):
     for nm in names:
       p = draw(_param(nm, via))
       pv = spaces.parent_values_of(p)
+      if p['kind'] == 'INTEGER' and abs(p['lo']) > MAX_EXACT_INT:
+        pv = []  # vizier requires float(v) == v for numeric parent values
       if depth < max_depth and pv and draw(st.integers(0, 9)) < (
           6 if depth == 1 else 5):
         groups = []
@@ -363,7 +366,6 @@ def build_md(items):
 # trials
 # ---------------------------------------------------------------------------
 STATUSES = ['REQUESTED', 'ACTIVE', 'STOPPING', 'COMPLETED', 'INFEASIBLE']
-MAX_EXACT_INT = 2 ** 53
 
 
 def _pvalue():
@@ -388,6 +390,10 @@ def _time_us():
   return st.one_of(
       st.integers(lo, hi),
       st.integers(lo // 10 ** 6, hi // 10 ** 6).map(lambda s: s * 10 ** 6),
+      # the hours around the 2021 DST transitions of the CET/CEST rule
+      st.tuples(st.sampled_from([1616893200, 1635642000]),
+                st.integers(-7200, 7200), st.integers(0, 999999)).map(
+                    lambda t: (t[0] + t[1]) * 10 ** 6 + t[2]),
       st.sampled_from([1600000000 * 10 ** 6 + 1, 1600000000 * 10 ** 6 + 999999,
                        1700000000 * 10 ** 6 + 500000,
                        1700000000 * 10 ** 6 + 123457]))
@@ -611,8 +617,8 @@ def avoid_pythia(c, avoid, avoided):
 
 
 def build_descriptor(d):
-  from vizier import pythia
-  return pythia.StudyDescriptor(build_problem(d['problem']), guid=d['guid'],
+  from vizier import pyvizier as vz
+  return vz.StudyDescriptor(build_problem(d['problem']), guid=d['guid'],
                                 max_trial_id=d['max_trial_id'])
 
 
